@@ -148,6 +148,10 @@ Proof. exact sections_as_expected. Qed.
 Theorem C16_helpers_lock_free : helpers_lock_free = true /\ 8 <= List.length helper_lock_calls.
 Proof. exact helpers_are_lock_free. Qed.
 
+Theorem C16_readers_store_nothing : readers_store_nothing = true /\ 12 <= List.length reader_helper_stores.
+Proof. exact readers_are_readers. Qed.
+
+Print Assumptions C16_readers_store_nothing.
 Print Assumptions C16_one_section_per_operation.
 Print Assumptions C16_helpers_lock_free.
 Print Assumptions C16_race_free.
